@@ -14,6 +14,10 @@ programs by canonical macro steps, `s` being the hand state it corresponds to.
                          worker closure and the hasher closure have returned, all handles were joined
   C06GC_deadlock_free_src, C06GC_final_src   the same with `0 < p.W` discharged by `C06G_worker_count_pos` (p.W = the value of
                          the generated `determine_worker_count`, any environment string, any configuration)
+  C06GC_terminates_prog, C06GC_final_prog, C06GC_deterministic_prog, C06GC_final_prog_src
+                         the same three over `ParProg.ProgRun` from `start0 p` - runs of the generated programs' OWN semantics
+                         (macro steps to the first yield point), no hand state in the statement; helper facts
+                         `macroStepC_unique`, `step_done_join`, `final_no_step`, `runInv_step`, `runInv_run`, `done_of_returned`
   C06GC_deterministic    fault-free run: the result is all N frames in order, the digest input is the concatenation of
                          the blocks, the final STREAMINFO updates were made
 -/
@@ -119,5 +123,182 @@ theorem C06GC_final_src {p : Params} {fill : List Stmt} (ap : Nat) (hap : 1 ≤ 
     ∃ a b g', macroStep (env p fill) .main a b g = some (e, g') ∧ g'.main.cont = [] ∧
       g'.main.result = some (seqResult p) ∧ (∀ t ∈ g'.workers, t.cont = []) ∧ g'.hasher.cont = [] :=
   C06GC_final (g' := g') (C06G_worker_count_pos ap hap envv config hcfg p.W hW) h e he hs hd
+
+/-! ## the same over the programs' own run notion (`ParProg.ProgRun` from `start0 p`; no hand state in the statement) -/
+
+theorem macroStepC_unique {en : Env} {tid : Tid} {a b a' b' : Nat} {g g3 g3' : PState} {e e' : Ev}
+    (h : macroStepC en tid a b g = some (e, g3)) (h' : macroStepC en tid a' b' g = some (e', g3')) : e = e' ∧ g3 = g3' := by
+  obtain ⟨g1, g2, h1, h2, h3, hy⟩ := macroStepC_unpack h
+  obtain ⟨x1, x2, k1, k2, k3, ky⟩ := macroStepC_unpack h'
+  obtain ⟨_, h6, h7⟩ := C06G_next_unique _ _ a a' g g1 x1 e e' g2 x2 h1 h2 k1 k2
+  subst h6 h7
+  exact ⟨rfl, (settle_unique b b' g2 g3 g3' h3 hy k3 ky).2⟩
+
+/-- the hand pc `done` is entered by the two join events only -/
+theorem step_done_join {p : Params} {s s' : State} {e : Ev} (h : Par.step p s e = some s') (hd : s'.main = .done)
+    (hnd : s.main ≠ .done) : e = .m_joined_hasher ∨ e = .m_joined_worker := by
+  cases e with
+  | m_joined_hasher => exact Or.inl rfl
+  | m_joined_worker => exact Or.inr rfl
+  | encode_send x =>
+    exfalso
+    cases x <;> simp only [Par.step] at h <;> (repeat' split at h) <;>
+      first
+      | (injection h with h; subst h; simp [afterStop] at hd; try (split at hd <;> simp at hd))
+      | simp at h
+  | _ =>
+    exfalso
+    simp only [Par.step] at h
+    repeat' split at h
+    all_goals
+      first
+      | (injection h with h; subst h; first | exact hnd hd | (simp [afterStop] at hd; try (split at hd <;> simp at hd)))
+      | simp at h
+
+/-- once the hand model is final nothing can happen -/
+theorem final_no_step {p : Params} (hW : 0 < p.W) {s : State} (hr : Reaches p s) (hd : s.main = .done) (e : Ev) :
+    Par.step p s e = none := by
+  obtain ⟨_, hex, _, hh, _, _⟩ := C06_final p hW s hr hd
+  have hw : ∀ (w : Nat) (pc : WPc), s.workers[w]? = some pc → pc = WPc.exited := fun w pc h => hex pc (List.mem_of_getElem? h)
+  cases e with
+  | encode_recv w x =>
+    cases hq : s.workers[w]? with
+    | none => simp [Par.step, hq]
+    | some pc => have := hw w pc hq; subst this; simp [Par.step, hq]
+  | w_lock w id n =>
+    cases hq : s.workers[w]? with
+    | none => simp [Par.step, hq]
+    | some pc => have := hw w pc hq; subst this; simp [Par.step, hq]
+  | refill_send w id =>
+    cases hq : s.workers[w]? with
+    | none => simp [Par.step, hq]
+    | some pc => have := hw w pc hq; subst this; simp [Par.step, hq]
+  | w_push w id n =>
+    cases hq : s.workers[w]? with
+    | none => simp [Par.step, hq]
+    | some pc => have := hw w pc hq; subst this; simp [Par.step, hq]
+  | w_err w id n =>
+    cases hq : s.workers[w]? with
+    | none => simp [Par.step, hq]
+    | some pc => have := hw w pc hq; subst this; simp [Par.step, hq]
+  | md5_recv len => simp [Par.step, hh]
+  | encode_send x => cases x <;> simp [Par.step, hd]
+  | _ => simp [Par.step, hd]
+
+/-- what a run of the programs keeps: correspondence with a reachable hand state, and - once the main program has
+returned - its result, digest and STREAMINFO updates -/
+def RunInv (p : Params) (g : PState) (s : State) : Prop :=
+  Corr p g s ∧ Reaches p s ∧
+    (s.main = .done → g.main.result = some s.result ∧
+      ∀ l, s.result = .ok l → g.main.digest = s.hashed ∧ g.main.sizesSet = true ∧ g.main.totalSet = true)
+
+theorem runInv_step {p : Params} {fill : List Stmt} (hf : fill = fillInterleaved ∨ fill = fillLeBytes) (hW : 0 < p.W)
+    {g g3 : PState} {s : State} (hi : RunInv p g s) {tid : Tid} {a b : Nat} {e : Ev}
+    (hm : macroStepC (env p fill) tid a b g = some (e, g3)) : ∃ s', Par.step p s e = some s' ∧ RunInv p g3 s' := by
+  obtain ⟨hc, hr, _⟩ := hi
+  obtain ⟨s', hs, ht, hc3⟩ := C06G_bwdC hf hc hm
+  refine ⟨s', hs, hc3, .step hr hs, ?_⟩
+  intro hd
+  by_cases hnd : s.main = .done
+  · rw [final_no_step hW hr hnd e] at hs; cases hs
+  · rcases step_done_join hs hd hnd with rfl | rfl
+    · obtain ⟨b0, g0, h1, _, h3⟩ := C06G_m_joined_hasher_fwd (fill := fill) hc hs
+      subst ht
+      obtain ⟨_, hg⟩ := macroStepC_unique hm h1
+      subst hg
+      exact h3 hd
+    · obtain ⟨b0, g0, h1, _, h3⟩ := C06G_m_joined_worker_fwd (fill := fill) hc hs
+      subst ht
+      obtain ⟨_, hg⟩ := macroStepC_unique hm h1
+      subst hg
+      exact h3 hd
+
+theorem runInv_run {p : Params} {fill : List Stmt} (hf : fill = fillInterleaved ∨ fill = fillLeBytes) (hW : 0 < p.W)
+    {g g' : PState} {evs : List Ev} (hr : ProgRun (env p fill) g evs g') :
+    ∀ s, RunInv p g s → ∃ s', Par.run p s evs = some s' ∧ RunInv p g' s' := by
+  induction hr with
+  | nil g => intro s hi; exact ⟨s, rfl, hi⟩
+  | cons hm _ ih =>
+    intro s hi
+    obtain ⟨s1, hs, hi1⟩ := runInv_step hf hW hi hm
+    obtain ⟨s', hrun, hi'⟩ := ih s1 hi1
+    exact ⟨s', by simp [Par.run, hs, hrun], hi'⟩
+
+theorem runInv_start (p : Params) (fill : List Stmt) : RunInv p (start0 p) (init p) :=
+  ⟨(C06G_start0 p fill).2, .init, fun h => by simp [init] at h⟩
+
+/-- main returned (`cont = []`) only at the hand pc `done` -/
+theorem done_of_returned {p : Params} {g : PState} {s : State} (hc : Corr p g s) (h : g.main.cont = []) : s.main = .done := by
+  have hm := hc.main.1
+  unfold MCorrPc at hm
+  cases hpc : s.main <;> simp only [hpc] at hm
+  case done => rfl
+  case stop r =>
+    obtain ⟨r', _, hok, herr, _⟩ := hm
+    cases hre : s.readErr
+    · have := hok hre; rw [h] at this; simp [mStopOk, stopBody] at this
+    · have := herr hre; rw [h] at this; simp [mStopErr, stopBody] at this
+  case joinW j =>
+    obtain ⟨r, _, hcont, _⟩ := hm
+    rw [h] at hcont; simp [mJoinW, joinBody] at hcont
+  all_goals
+    (have hcont := hm.1; rw [h] at hcont
+     simp [mRecv, mLocked, mAfterSend, mEnq, mReqStop, mJoinH, recvBody, enqBody, fb, feedFn, loopK, mainProg] at hcont)
+
+/-- TERMINATION over the programs' own runs: at most 9·N + 3·W + 7 protocol steps. -/
+theorem C06GC_terminates_prog {p : Params} {fill : List Stmt} (hf : fill = fillInterleaved ∨ fill = fillLeBytes)
+    {evs : List Ev} {g' : PState} (h : ProgRun (env p fill) (start0 p) evs g') :
+    evs.length ≤ 9 * p.blocks.length + 3 * p.W + 7 := by
+  obtain ⟨s', hrun, _⟩ := ((C06G_traces_prog (p := p) hf evs).2.2) g' h
+  exact C06_run_length p evs s' (replay_ok_iff.2 hrun)
+
+/-- FAILURE PROPAGATION / NO THREAD LEFT over the programs' own runs: whenever, in ANY run of the generated programs, the
+main program has returned, its result is the single-thread result, and every worker closure and the hasher closure have
+returned. -/
+theorem C06GC_final_prog {p : Params} {fill : List Stmt} (hf : fill = fillInterleaved ∨ fill = fillLeBytes) (hW : 0 < p.W)
+    {evs : List Ev} {g' : PState} (h : ProgRun (env p fill) (start0 p) evs g') (hret : g'.main.cont = []) :
+    g'.main.result = some (seqResult p) ∧ (∀ t ∈ g'.workers, t.cont = []) ∧ g'.hasher.cont = [] := by
+  obtain ⟨s', _, hc, hr, hres⟩ := runInv_run hf hW h _ (runInv_start p fill)
+  have hd := done_of_returned hc hret
+  have hfin := C06_final p hW s' hr hd
+  refine ⟨by rw [(hres hd).1, hfin.1], ?_, ?_⟩
+  · have hex := hfin.2.1
+    have hws := hc.ws
+    generalize g'.workers = ts at hws
+    generalize s'.workers = pcs at hws hex
+    induction hws with
+    | nil => simp
+    | cons hw _ ih =>
+      intro t ht
+      rcases List.mem_cons.mp ht with rfl | ht
+      · have := hex _ (List.mem_cons_self)
+        subst this
+        exact hw.1
+      · exact ih (fun pc hpc => hex pc (List.mem_cons_of_mem _ hpc)) t ht
+  · have := hc.hs
+    rw [hfin.2.2.2.1] at this
+    exact this.1
+
+/-- MT = ST over the programs' own runs, fault-free input: all frames in order, digest input = the blocks' bytes. -/
+theorem C06GC_deterministic_prog {p : Params} {fill : List Stmt} (hf : fill = fillInterleaved ∨ fill = fillLeBytes)
+    (hW : 0 < p.W) (hnf : p.readFailAt = none) (hv : ∀ b ∈ p.blocks, b.valid) (hne : p.NonemptyBlocks)
+    {evs : List Ev} {g' : PState} (h : ProgRun (env p fill) (start0 p) evs g') (hret : g'.main.cont = []) :
+    g'.main.result = some (.ok (List.range p.blocks.length)) ∧
+      g'.main.digest = (p.blocks.map (·.bytes)).flatten ∧ g'.main.sizesSet = true ∧ g'.main.totalSet = true := by
+  obtain ⟨s', _, hc, hr, hres⟩ := runInv_run hf hW h _ (runInv_start p fill)
+  have hd := done_of_returned hc hret
+  obtain ⟨hdet, hhash⟩ := C05_deterministic p hW hnf hv hne s' hr hd
+  obtain ⟨h0, hok⟩ := hres hd
+  obtain ⟨h1, h2, h3⟩ := hok _ hdet
+  exact ⟨by rw [h0, hdet], by rw [h1, hhash], h2, h3⟩
+
+/-- `C06GC_final_prog` for the current source's worker count: no hypothesis on `p.W` other than that it is what the
+generated `determine_worker_count` returns. -/
+theorem C06GC_final_prog_src {p : Params} {fill : List Stmt} (hf : fill = fillInterleaved ∨ fill = fillLeBytes)
+    (ap : Nat) (hap : 1 ≤ ap) (envv : Option String) (config : FlacVerif.Gen.Encoder)
+    (hcfg : ∀ n, config.workers = some n → 0 < n) (hW : determineWorkerCount (some ap) envv config = some p.W)
+    {evs : List Ev} {g' : PState} (h : ProgRun (env p fill) (start0 p) evs g') (hret : g'.main.cont = []) :
+    g'.main.result = some (seqResult p) ∧ (∀ t ∈ g'.workers, t.cont = []) ∧ g'.hasher.cont = [] :=
+  C06GC_final_prog hf (C06G_worker_count_pos ap hap envv config hcfg p.W hW) h hret
 
 end FlacVerif.C06Gen
